@@ -87,9 +87,13 @@ def make_setup(ctx, rng, mode, n_models, nb, resolved=False):
     names = gen.model_names(rng, n_models)
     wav = gen.band_wavelengths(rng, nb)
     bn = ['K%d' % i for i in range(nb)]
-    lw, lc = gen.make_law_arrays(rng, n=30, lo=0.1, hi=2000.0)
+    for _ in range(200):     # a law/band set with enough leverage on A_V in at least three bands (regular regressions exist)
+        lw, lc = gen.make_law_arrays(rng, n=30, lo=0.1, hi=2000.0)
+        k = O.ext_pattern(lw, lc, wav)
+        if np.sum(np.abs(k) > 1e-2) >= 3 and np.ptp(k) > 0.05:
+            break
+        wav = gen.band_wavelengths(rng, nb)
     law = gen.build_law(lw, lc)
-    k = O.ext_pattern(lw, lc, wav)
     if mode == '2d':
         conv = gen.conv_grid(rng, n_models, nb)
         aps = None
